@@ -114,7 +114,80 @@ def obsOf (m : MState) : Args :=
     [("thr", renderThr thr), ("total", toString total), ("voters", joinC voters), ("pvoters", joinC pvoters),
      ("props", joinC props), ("rprops", joinC props.reverse), ("pprops", joinC pprops),
      ("votes", joinC votes), ("pvotes", joinC pvotes), ("raw", joinC raw), ("bal", joinC bal),
-     ("sink", if w.sinkOk then "1" else "0")]
+     ("sink", if w.sinkOk then "1" else "0"),
+     -- raw reads: `CONFIG.max_voting_period`, `PROPOSAL_COUNT`
+     ("maxp", s.cfg.maxVotingPeriod.render), ("count", toString s.core.count)]
+
+/-! ## Re-synchronisation -/
+
+def parseStatus : String → Option Status
+  | "pending" => some .pending | "open" => some .open | "rejected" => some .rejected
+  | "passed" => some .passed | "executed" => some .executed | _ => none
+
+/-- stored record `id|status|y:n:a:v|start_height` -/
+def parseRawRec (s : String) : Option (Nat × Status × Votes × Nat) :=
+  match s.splitOn "|" with
+  | [id, st, v, h] =>
+    match v.splitOn ":" with
+    | [y, n, a, ve] => do
+      let id ← id.toNat?; let st ← parseStatus st; let h ← h.toNat?
+      let y ← y.toNat?; let n ← n.toNat?; let a ← a.toNat?; let ve ← ve.toNat?
+      pure (id, st, ⟨y, n, a, ve⟩, h)
+    | _ => none
+  | _ => none
+
+/-- One proposal from its listed view (`props`) and its stored record (`raw`). -/
+def parsePropRec (raws : List (Nat × Status × Votes × Nat)) (s : String) : Option (Nat × Proposal) :=
+  match s.splitOn "|" with
+  | [id, _, exp, thr, total, proposer, title, desc, _, msgs] => do
+    let id ← id.toNat?
+    let exp ← parseExp exp
+    let total ← total.toNat?
+    let (_, st, votes, h) ← raws.find? (·.1 == id)
+    pure (id, { title, description := desc, startHeight := h, expires := exp,
+                msgs := (if msgs == "" then [] else msgs.splitOn "+").map parseMsg, status := st,
+                threshold := parseThr thr, totalWeight := total, votes, proposer, deposit := none })
+  | _ => none
+
+/-- `id>addr:weight:vote` -/
+def parseBallotRec (s : String) : Option (Nat × String × Ballot) :=
+  match s.splitOn ">" with
+  | [id, rest] =>
+    match rest.splitOn ":" with
+    | [a, w, v] => do
+      let id ← id.toNat?; let w ← w.toNat?; let v ← Vote.parse v
+      pure (id, a, ⟨w, v⟩)
+    | _ => none
+  | _ => none
+
+/-- `addr:denom:amount` -/
+def parseBalRec (s : String) : Option ((String × String) × Nat) :=
+  match s.splitOn ":" with
+  | [a, d, n] => n.toNat?.map fun n => ((a, d), n)
+  | _ => none
+
+/-- Configuration (`thr`, `total`, `maxp`), voters, every proposal (listed view + stored record; ids must be
+exactly `1..count`, otherwise the listing is not the whole map and the state cannot be rebuilt), every
+ballot (`votes`), the balances of the actors, the sink flag.  Kept: block, pool, balances of addresses
+outside the actor list, the ghost event log. -/
+def resyncOf (m : MState) (o : Args) : Option MState :=
+  if (o.get "uninit").isSome then some { m with w := none } else do
+  let maxp ← parseDur (o.str "maxp")
+  let count ← (o.str "count").toNat?
+  if o.str "thr" == "?" then none
+  let raws := (o.list "raw").filterMap parseRawRec
+  let props ← (o.list "props").mapM (parsePropRec raws)
+  if props.map (·.1) != (List.range count).map (· + 1) then none
+  let ballots : AMap Nat (AMap Addr Ballot) := ((o.list "votes").filterMap parseBallotRec).foldl
+    (fun acc (id, a, b) => acc.set id (((acc.get? id).getD []).set a b)) []
+  let voters : AMap Addr Nat := (o.list "voters").foldl (fun acc e => let p := parsePair e; acc.set p.1 p.2) []
+  let act := actors m
+  let oldBank : AMap (Addr × String) Nat := match m.w with | some w => w.bank.filter (fun e => !act.contains e.1.1) | none => []
+  let bank := ((o.list "bal").filterMap parseBalRec).foldl (fun acc (k, v) => acc.set k v) oldBank
+  let ms : State := { cfg := ⟨parseThr (o.str "thr"), o.nat "total", maxp⟩, voters,
+                      core := ⟨count, props.foldl (fun acc (id, p) => acc.set id p) [], ballots⟩ }
+  pure { m with w := some { ms, self := m.self, bank, sinkOk := o.str "sink" == "1",
+                            log := match m.w with | some w => w.log | none => [] } }
 
 def err (m : MState) (tag : String) : MState × StepResult := (m, { ok := some false, tag := tag })
 
@@ -519,5 +592,6 @@ def scen : Scen MState Mon where
   obs := obsOf
   monInit h := { self := h.str "self" }
   monitor := monitorOp
+  resync := some resyncOf
 
 end CwPlus.Driver.Cw3Fixed
